@@ -2,6 +2,7 @@ package sim
 
 import (
 	"fmt"
+	"os"
 	"sort"
 	"strings"
 	"time"
@@ -64,7 +65,7 @@ func (m *Monitors) viol(prop, rule string, attrs map[string]string, inv *simapi.
 		detail["invocation"] = describeInv(inv)
 	}
 	tr := m.w.Trace
-	if len(tr) > 60 {
+	if len(tr) > 60 && os.Getenv("VH_TRACE") == "" {
 		tr = tr[len(tr)-60:]
 	}
 	detail["trace_tail"] = tr
@@ -325,11 +326,21 @@ func (m *Monitors) onERS(inv *simapi.Invocation, out kit.Outcome) {
 			}
 		case "delete":
 			if c.Pre == nil {
+				// the pod was already gone (another actor removed it in between): the delete was issued
+				if c.Submitted != nil {
+					deleted[c.Submitted.GetNamespace()+"/"+c.Submitted.GetName()] = c
+				}
 				continue
 			}
 			pre := c.Pre.(*corev1.Pod)
 			deleted[podKey(pre)] = c
-			if pre.Status.Phase == corev1.PodUnknown {
+			phaseAsRead := pre.Status.Phase
+			for _, p := range v.Pods {
+				if podKey(p) == podKey(pre) {
+					phaseAsRead = p.Status.Phase // the phase the sync saw (it may have changed since)
+				}
+			}
+			if phaseAsRead == corev1.PodUnknown {
 				m.viol("C01", "C01.unknown-untouched", map[string]string{"verb": "delete"}, inv, map[string]any{"pod": podKey(pre)})
 			}
 			if isUpdateDelete(c) {
@@ -511,7 +522,7 @@ func sumInts(m map[string]int) int {
 func podNames(ps []*corev1.Pod) []string {
 	var out []string
 	for _, p := range ps {
-		out = append(out, fmt.Sprintf("%s(sched=%v,created=%s,phase=%s,term=%v)", p.Name, p.Spec.NodeName != "", p.CreationTimestamp.UTC().Format("15:04:05"), p.Status.Phase, p.DeletionTimestamp != nil))
+		out = append(out, fmt.Sprintf("%s(tpl=%s,sched=%v,created=%s,phase=%s,ready=%v,term=%v)", p.Name, kit.MarkerOfPod(p), p.Spec.NodeName != "", p.CreationTimestamp.UTC().Format("15:04:05"), p.Status.Phase, kit.IsReady(p), p.DeletionTimestamp != nil))
 	}
 	return out
 }
@@ -520,7 +531,14 @@ func podNames(ps []*corev1.Pod) []string {
 func (m *Monitors) budget(inv *simapi.Invocation, v *ERSView, podsByNode map[string][]*corev1.Pod, updateDeletes []*simapi.Call, eligible func(string) bool) {
 	ctx := m.w.Ctx
 	ru := v.EDS.Spec.Strategy.RollingUpdate
-	now := time.Unix(0, inv.VTimeNanos)
+	// stuck-ness (unscheduled > 10 min, terminating past its grace) is read from the wall clock
+	// when the strategy runs; in N mode the clock may move inside the invocation, so the budget
+	// is computed at the first and at the last instant of the invocation and the more tolerant
+	// of the two is used
+	instants := []time.Time{time.Unix(0, inv.VTimeNanos)}
+	if inv.EndVTimeNanos > inv.VTimeNanos {
+		instants = append(instants, time.Unix(0, inv.EndVTimeNanos))
+	}
 	// targeted nodes: eligible, not canary
 	var T []string
 	for name := range v.Nodes {
@@ -535,43 +553,50 @@ func (m *Monitors) budget(inv *simapi.Invocation, v *ERSView, podsByNode map[str
 	if !ok1 || !ok2 {
 		return
 	}
-	stuck, unavailableNodes := 0, 0
-	rep := map[string]*corev1.Pod{}
-	for _, name := range T {
-		var cands []*corev1.Pod
-		for _, p := range podsByNode[name] {
-			if p.Status.Phase == corev1.PodUnknown {
+	allowed, stuck, unavailableNodes := -1, 0, 0
+	for _, now := range instants {
+		st, un := 0, 0
+		for _, name := range T {
+			var cands []*corev1.Pod
+			for _, p := range podsByNode[name] {
+				// Unknown-phase pods are ignored and Failed pods are deleted or kept as clean-up
+				// business (C01): neither is the node's daemon pod for the budget
+				if p.Status.Phase == corev1.PodUnknown || p.Status.Phase == corev1.PodFailed {
+					continue
+				}
+				cands = append(cands, p)
+			}
+			if len(cands) == 0 {
+				un++
 				continue
 			}
-			cands = append(cands, p)
+			// which of several pods the controller keeps is C01's business
+			p := oracle.Representative(cands)[0]
+			isStuck := (p.Spec.NodeName == "" && p.CreationTimestamp.Add(10*time.Minute).Before(now)) ||
+				(p.DeletionTimestamp != nil && p.DeletionGracePeriodSeconds != nil && p.DeletionTimestamp.Add(time.Duration(*p.DeletionGracePeriodSeconds)*time.Second).Before(now))
+			if isStuck {
+				st++
+				un++
+				continue
+			}
+			// an up-to-date pod that is terminating but still Ready is not one of the statement's node
+			// classes: it is given the benefit of the doubt (counted available, as the controller does)
+			upToDatePod := kit.MarkerOfPod(p) == kit.MarkerOfTemplate(&v.RS.Spec.Template)
+			if !kit.IsReady(p) || (p.DeletionTimestamp != nil && !upToDatePod) {
+				un++
+			}
 		}
-		if len(cands) == 0 {
-			unavailableNodes++
-			continue
+		tol := st
+		if tol > MPSF {
+			tol = MPSF
 		}
-		// which of several pods the controller keeps is C01's business; the budget is judged on
-		// nodes holding exactly one candidate, others are counted unavailable-conservatively
-		p := oracle.Representative(cands)[0]
-		rep[name] = p
-		isStuck := (p.Spec.NodeName == "" && p.CreationTimestamp.Add(10*time.Minute).Before(now)) ||
-			(p.DeletionTimestamp != nil && p.DeletionGracePeriodSeconds != nil && p.DeletionTimestamp.Add(time.Duration(*p.DeletionGracePeriodSeconds)*time.Second).Before(now))
-		if isStuck {
-			stuck++
-			unavailableNodes++
-			continue
+		a := MU - (un - tol)
+		if a < 0 {
+			a = 0
 		}
-		if !kit.IsReady(p) || p.DeletionTimestamp != nil {
-			unavailableNodes++
+		if a > allowed {
+			allowed, stuck, unavailableNodes = a, st, un
 		}
-	}
-	tol := stuck
-	if tol > MPSF {
-		tol = MPSF
-	}
-	U := unavailableNodes - tol
-	allowed := MU - U
-	if allowed < 0 {
-		allowed = 0
 	}
 	dAvail := 0
 	for _, c := range updateDeletes {
@@ -596,7 +621,11 @@ func (m *Monitors) budget(inv *simapi.Invocation, v *ERSView, podsByNode map[str
 	if len(updateDeletes) > 0 {
 		ctx.Count("C03.sim-syncs-deleting-for-update")
 	}
-	d := map[string]any{"targeted": n, "MU": MU, "MPSF": MPSF, "unavailableNodes": unavailableNodes, "stuck": stuck, "allowedAvailableDeletes": allowed, "deletedAvailable": dAvail, "updateDeletes": len(updateDeletes)}
+	perNode := map[string][]string{}
+	for _, name := range T {
+		perNode[name] = podNames(podsByNode[name])
+	}
+	d := map[string]any{"perNode": perNode, "targeted": n, "MU": MU, "MPSF": MPSF, "unavailableNodes": unavailableNodes, "stuck": stuck, "allowedAvailableDeletes": allowed, "deletedAvailable": dAvail, "updateDeletes": len(updateDeletes)}
 	if dAvail > allowed {
 		// outdated unavailable pods present? (the known map-order defect class)
 		m.viol("C03", "C03.budget", map[string]string{"mixed": "sim", "stuck": fmt.Sprint(stuck > 0)}, inv, d)
@@ -996,8 +1025,8 @@ func (m *Monitors) rollbackCheck(inv *simapi.Invocation, out kit.Outcome, v *eds
 		return
 	}
 	ctx.Count("C07.failed-canary-reconciles")
-	if out.Err != nil || invFaulted(inv) {
-		return // judged again at the next failure-free reconcile / by C07.recoverable
+	if out.Err != nil || invFaulted(inv) || inv.Nested {
+		return // judged again at the next failure-free, un-interleaved reconcile / by C07.recoverable
 	}
 	ctx.Count("C07.rollbacks-judged")
 	stored := kit.GetEDS(m.w.S, v.EDS.Namespace, v.EDS.Name)
@@ -1035,8 +1064,8 @@ func specEqual(a, b *corev1.PodTemplateSpec) bool {
 // ---- PodTemplate invocations (C13) --------------------------------------------------------------------------
 
 func (m *Monitors) onPodTemplate(inv *simapi.Invocation, out kit.Outcome) {
-	if out.Err != nil || invFaulted(inv) {
-		return
+	if out.Err != nil || invFaulted(inv) || inv.Nested {
+		return // judged against the store after the reconcile: only meaningful when nobody else acted meanwhile
 	}
 	var eds *v1.ExtendedDaemonSet
 	for _, c := range inv.Calls {
